@@ -3,6 +3,7 @@
 package verifharness
 
 import (
+	"bytes"
 	"errors"
 	"fmt"
 	"math/big"
@@ -371,6 +372,27 @@ func TestC19(t *testing.T) {
 						return "OK " + hexBytes(dst)
 					}))
 				}
+			}
+		}
+	}
+	// large fixed destinations (48 .. 1000 bytes): texts denoting fewer, exactly as many and more
+	// bytes; destinations that already hold something
+	for _, kk := range []int{48, 96, 127, 128, 129, 256, 1000} {
+		for _, tl := range []int{0, 1, kk / 2, kk - 1, kk, kk + 1, 2 * kk} {
+			for _, pre := range []string{"", "0x"} {
+				b := make([]byte, 2*tl)
+				for i := range b {
+					b[i] = "0123456789abcdefABCDEF"[rng.Intn(22)]
+				}
+				text := append([]byte(pre), b...)
+				k2 := kk
+				out.emit("hexu-big", "hexu", []string{hx(uint64(k2)), hexBytes(text)}, guard(func() string {
+					dst := bytes.Repeat([]byte{0xa5}, k2)
+					if err := conv.FixedBytesUnmarshalText(dst, text); err != nil {
+						return "ERR"
+					}
+					return "OK " + hexBytes(dst)
+				}))
 			}
 		}
 	}
